@@ -338,3 +338,43 @@ func (p *Program) ReadOnlyTable(obj *types.Var) *ast.CompositeLit {
 	p.tables[obj] = lit
 	return lit
 }
+
+// CallersOf returns the repository functions containing a static call of fi (function literals count for
+// their enclosing declaration) and whether fi is also used as a value (method value, func argument).
+func (p *Program) CallersOf(fi *FuncInfo) (callers []*FuncInfo, asValue bool) {
+	seen := map[*FuncInfo]bool{}
+	for _, f := range p.funcIndex {
+		if f.Decl.Body == nil {
+			continue
+		}
+		info := f.Pkg.TypesInfo
+		calledIdents := map[*ast.Ident]bool{}
+		ast.Inspect(f.Decl.Body, func(n ast.Node) bool {
+			if call, ok := n.(*ast.CallExpr); ok {
+				switch fun := unparen(call.Fun).(type) {
+				case *ast.Ident:
+					calledIdents[fun] = true
+				case *ast.SelectorExpr:
+					calledIdents[fun.Sel] = true
+				}
+			}
+			return true
+		})
+		ast.Inspect(f.Decl.Body, func(n ast.Node) bool {
+			id, ok := n.(*ast.Ident)
+			if !ok || info.Uses[id] != types.Object(fi.Obj) {
+				return true
+			}
+			if calledIdents[id] {
+				if !seen[f] {
+					seen[f] = true
+					callers = append(callers, f)
+				}
+			} else {
+				asValue = true
+			}
+			return true
+		})
+	}
+	return
+}
